@@ -196,7 +196,8 @@ func (l *Layout) NewInvalidFile(t *rapid.T, label, dir, name string) *File {
 		}
 		f.Data = []byte(fmt.Sprintf(rapid.SampledFrom(docs).Draw(t, label+"semantic"), vendor, dev))
 	case Empty:
-		f.Data = []byte{}
+		// no document at all: zero bytes, or bytes that hold no document node
+		f.Data = []byte(rapid.SampledFrom([]string{"", "", "\n", "  \n\t\n", "---\n", "# just a comment\n", "null\n", "~", "--- null\n...\n"}).Draw(t, label+"blank"))
 	}
 	return f
 }
